@@ -270,6 +270,9 @@ impl<'a> ExprAST<'a> {
                     "false".into()
                 }
             }
+            // a string token cannot contain its own delimiter, so a payload with a
+            // double quote must have been written in single quotes
+            String(value) if value.contains('"') => "'".to_string() + &value + "'",
             String(value) => "\"".to_string() + &value + "\"",
         }
     }
@@ -291,36 +294,58 @@ impl<'a> ExprAST<'a> {
         ans
     }
 
-    fn unary_expr(&self, op: &'a str, rhs: &ExprAST) -> String {
-        op.to_string() + " " + &rhs.expr()
+    fn paren_expr(&self) -> String {
+        "(".to_string() + &self.expr() + ")"
     }
 
-    fn binary_expr(&self, op: &'a str, lhs: &ExprAST, rhs: &ExprAST) -> String {
-        let left = {
-            let (is, precidence) = lhs.get_precidence();
-            let mut tmp: String = lhs.expr();
-            if is && precidence < InfixOpManager::new().get_precidence(op) {
-                tmp = "(".to_string() + &lhs.expr() + &")".to_string();
-            }
-            tmp
+    // the operand of a prefix operator is a primary: anything but an infix
+    // expression or a conditional
+    fn unary_expr(&self, op: &'a str, rhs: &ExprAST) -> String {
+        let right = match rhs {
+            ExprAST::Binary(..) | ExprAST::Ternary(..) => rhs.paren_expr(),
+            _ => rhs.expr(),
         };
-        let right = {
-            let (is, precidence) = rhs.get_precidence();
-            let mut tmp = rhs.expr();
-            if is && precidence < InfixOpManager::new().get_precidence(op) {
-                tmp = "(".to_string() + &rhs.expr() + &")".to_string();
-            }
-            tmp
+        op.to_string() + " " + &right
+    }
+
+    // an infix operand that is itself an infix expression stands without parentheses
+    // exactly when the parser would group it that way: on the left if the operator does
+    // not bind tighter than the operand's own right side, on the right if the operand
+    // binds tighter than the operator's right side; a conditional operand always needs them
+    fn binary_expr(&self, op: &'a str, lhs: &ExprAST, rhs: &ExprAST) -> String {
+        let (l_bp, r_bp) = InfixOpManager::new().get_precidence(op);
+        let left = match lhs.get_precidence() {
+            (true, (_, lhs_r_bp)) if lhs_r_bp < l_bp => lhs.paren_expr(),
+            _ if matches!(lhs, ExprAST::Ternary(..)) => lhs.paren_expr(),
+            _ => lhs.expr(),
+        };
+        let right = match rhs.get_precidence() {
+            (true, (rhs_l_bp, _)) if rhs_l_bp <= r_bp => rhs.paren_expr(),
+            _ if matches!(rhs, ExprAST::Ternary(..)) => rhs.paren_expr(),
+            _ => rhs.expr(),
         };
         left + " " + op + " " + &right
     }
 
+    // a postfix operator applies to the token-level expression right before it
     fn postfix_expr(&self, lhs: &ExprAST, op: &str) -> String {
-        lhs.expr() + " " + op
+        let left = match lhs {
+            ExprAST::Unary(..)
+            | ExprAST::Binary(..)
+            | ExprAST::Postfix(..)
+            | ExprAST::Ternary(..) => lhs.paren_expr(),
+            _ => lhs.expr(),
+        };
+        left + " " + op
     }
 
+    // conditionals nest to the right without parentheses, not in the condition
     fn ternary_expr(&self, condition: &ExprAST, lhs: &ExprAST, rhs: &ExprAST) -> String {
-        condition.expr() + " ? " + &lhs.expr() + " : " + &rhs.expr()
+        let cond = match condition {
+            ExprAST::Ternary(..) => condition.paren_expr(),
+            _ => condition.expr(),
+        };
+        cond + " ? " + &lhs.expr() + " : " + &rhs.expr()
     }
 
     fn list_expr(&self, params: Vec<ExprAST>) -> String {
